@@ -25,6 +25,42 @@ ASSUMPTIONS = ['virtual clock; ARTIM = 10 s as configured by the provider', 'in 
                'provider (the upper layer\'s receive timeout bounds it: part 2)']
 
 
+_DELTA = None
+
+
+def _model_armed(role, hist):
+    """Walk the TLC-dumped protocol machine along a history of concrete events; True iff ARTIM is armed at the end
+    (None if the walk leaves the modelled behaviour)."""
+    global _DELTA
+    from .. import model
+    from . import c12
+    if _DELTA is None:
+        _DELTA, _ = model.automaton(False)
+    m = (1, role, False, 'none')
+    if role == 'ac':
+        m = _DELTA[m]['Evt5'][1]
+    for ev in hist:
+        if ev[0] == 'bytes':
+            cands = c12._classify(ev[1])
+            mev = cands[0]
+        elif ev[0] == 'user':
+            mev = {'assoc_rq': 'Evt1', 'accept': 'Evt7', 'reject': 'Evt8', 'pdata': 'Evt9', 'release_rq': 'Evt11', 'release_rp': 'Evt14',
+                   'abort': 'Evt15'}[ev[1][0]]
+        elif ev[0] == 'close':
+            mev = 'Evt17'
+        else:
+            return None
+        row = _DELTA.get(m, {})
+        if mev not in row:
+            if ev[0] == 'bytes' and m[3] != 'open':
+                continue
+            return None
+        m = row[mev][1]
+        if mev == 'Evt1':
+            m = _DELTA[m]['Evt2'][1]
+    return m[2]
+
+
 def flat(name):
     """-> role, list of ('bytes', pdu, round) / ('user', spec, round) / ('close', round) in canonical order"""
     role, rounds = c03.conv()[name]
@@ -51,6 +87,7 @@ def cases(tier, seed):
                 yield {'conv': name, 'fault': 'disconnect-at-loop-head', 'at': i, 'dev': d}
             yield {'conv': name, 'fault': 'reset', 'at': i}
             yield {'conv': name, 'fault': 'send-fails', 'at': i}
+            yield {'conv': name, 'fault': 'silence-while-other-association-runs', 'at': i}
 
 
 def domain(tier):
@@ -110,6 +147,10 @@ def run_case(case):
             hist.append(('stop',))
         elif fault == 'silence':
             hist += [('tick', 4.0), ('tick', 4.0), ('tick', 2.5)]
+        elif fault == 'silence-while-other-association-runs':
+            other = [('bytes', e2.std_rq()), ('user', ('accept',)), ('bytes', e2.pdata(1, 3, e2.echo_cmd())), ('bytes', e2.std_release()),
+                     ('user', ('release_rp',)), ('close',)]
+            hist += [('tick', 4.0), ('other', 'ac', other), ('tick', 4.0), ('tick', 2.5)]
         elif fault == 'reset':
             hist.append(('reset',))
         elif fault == 'send-fails':
@@ -146,11 +187,24 @@ def run_case(case):
             viol.append((sig + ':spurious-indication', 'abort indicated although no association had been indicated; indications %r (%s)' % (inds, where)))
         if len([x for x in inds if x[0] == 'A-ABORT']) > 1:
             viol.append((sig + ':double-indication', 'more than one abort indication: %r (%s)' % (inds, where)))
+    elif fault == 'silence-while-other-association-runs':
+        armed = _model_armed(role, hist[:-4])
+        oth = [l for st in env.steps + [env.cur] for l in st['log'] if isinstance(l, tuple) and l[0] == 'other-association']
+        if oth and (oth[0][1] != 'quiescent-end' or oth[0][2] != 0):
+            viol.append((sig + ':other-association-disturbed', 'the association running in between ended %r (%s)' % (oth[0], where)))
+        if armed and (fin['state'] != 0 or fin['sock'] == 'open' or fin['timer']):
+            viol.append((sig + ':artim-not-honoured', 'ARTIM armed, peer silent for 10.5 s while another association of the same process was set up and released: '
+                         'provider in Sta%d, transport %s, timer %s (%s)' % (fin['state'] + 1, fin['sock'], 'running' if fin['timer'] else 'not running', where)))
     elif fault == 'silence':
         before = None
         k = len(hist) - 3
         st_before = env.steps[k]['state'] if k < len(env.steps) else None
-        if st_before in (1, 12):
+        # where the protocol machine (TLA+ model, TLC graph) has ARTIM armed after this prefix
+        armed = _model_armed(role, hist[:-3])
+        if armed and (fin['state'] != 0 or fin['sock'] == 'open' or fin['timer']):
+            viol.append((sig + ':artim-not-honoured', 'the protocol arms ARTIM at this point and the peer stayed silent for 10.5 s: provider in Sta%d, transport %s, '
+                         'timer %s (%s)' % (fin['state'] + 1, fin['sock'], 'running' if fin['timer'] else 'not running', where)))
+        elif st_before in (1, 12):
             if fin['state'] != 0 or fin['sock'] == 'open' or fin['timer']:
                 viol.append((sig + ':artim-not-honoured', 'ARTIM was armed (Sta%d) and the peer stayed silent for 10.5 s: provider in Sta%d, transport %s (%s)' % (
                     st_before + 1, fin['state'] + 1, fin['sock'], where)))
